@@ -12,6 +12,8 @@
    when blocks are delivered out of order. *)
 From Coq Require Import Sorting.Sorted.
 From Verif Require Import Base.Util Model.SimChain Proofs.SimChainProofs Gen.Generated.
+From Coq Require Import Permutation.
+From Verif Require Import Model.SimFanout Proofs.SimFanoutProofs.
 From Verif Require Import Base.GenIR Gen.GeneratedTr Proofs.GenTrSim.
 Open Scope N_scope.
 
@@ -120,6 +122,42 @@ Print Assumptions C19_gen_report_range.
 Theorem C19_gen_history_covers_observation : (ObservationBlockHistoryLimit <= SimHistoryDepth)%Z.
 Proof. vm_compute. discriminate. Qed.
 Print Assumptions C19_gen_history_covers_observation.
+
+(* ---- every node receives every block ---- *)
+(* Fan-out model (Model/SimFanout.v): a broadcast spawns one delivery per current subscriber, deliveries complete in any
+   order after any delay.  A subscriber present from the start has, at every moment, received-or-is-owed exactly the
+   blocks broadcast so far, each once; when nothing is in flight it has received exactly those blocks; and a delivery
+   in flight can always complete.  The tie of the two steps to broadcaster.go is C19_gen_broadcaster_fanout below
+   (every subscription gets its goroutine, the goroutine always sends). *)
+Theorem C19_fanout_exactly_once :
+  forall subs ops x,
+  count_occ Nat.eq_dec subs x = 1%nat ->
+  (forall y, In (FSubscribe y) ops -> y <> x) ->
+  let s := frun subs ops in
+  Permutation (recv_of s x ++ owed_to s x) (f_sent s).
+Proof. exact fanout_exactly_once. Qed.
+Print Assumptions C19_fanout_exactly_once.
+
+Theorem C19_every_subscriber_gets_every_block :
+  forall subs ops x,
+  count_occ Nat.eq_dec subs x = 1%nat ->
+  (forall y, In (FSubscribe y) ops -> y <> x) ->
+  f_flight (frun subs ops) = [] ->
+  Permutation (recv_of (frun subs ops) x) (f_sent (frun subs ops)).
+Proof. exact fanout_complete. Qed.
+Print Assumptions C19_every_subscriber_gets_every_block.
+
+Theorem C19_fanout_progress :
+  forall s, f_flight s <> [] -> (length (f_flight (fstep s (FDeliver 0))) < length (f_flight s))%nat.
+Proof. exact fanout_progress. Qed.
+Print Assumptions C19_fanout_progress.
+
+Example C19_fanout_nonvacuous :
+  let ops := [FBroadcast 7; FBroadcast 8; FDeliver 3; FDeliver 0; FSubscribe 5; FBroadcast 9; FDeliver 1; FDeliver 0;
+              FDeliver 0; FDeliver 0; FDeliver 0]%nat in
+  count_occ Nat.eq_dec [1; 2]%nat 2%nat = 1%nat /\ f_flight (frun [1; 2]%nat ops) = [] /\
+  recv_of (frun [1; 2]%nat ops) 2%nat = [8; 7; 9]%nat /\ f_sent (frun [1; 2]%nat ops) = [7; 8; 9]%nat.
+Proof. vm_compute. repeat split. Qed.
 
 Section GenTie.
 Local Open Scope Z_scope.
